@@ -432,6 +432,35 @@ func c17(r *Run) {
 			}
 		}
 	}
+	// ... and what a getter hands back is appended unless the getter itself said "nothing" (isNil): deal does not judge the buffer
+	for _, ins := range findIns(deal, func(i ssa.Instruction) bool {
+		cc := callCommon(i)
+		return cc != nil && cc.StaticCallee() == nil && !cc.IsInvoke() && namedTypeName(cc.Value.Type()) == "WriterGetter"
+	}) {
+		call, _ := ins.(*ssa.Call)
+		if call == nil {
+			continue
+		}
+		isGetter := func(x ssa.Instruction) bool {
+			cc := callCommon(x)
+			return cc != nil && cc.StaticCallee() == nil && !cc.IsInvoke() && namedTypeName(cc.Value.Type()) == "WriterGetter"
+		}
+		notNil := func(v ssa.Value) (bool, bool) {
+			if e, ok := v.(*ssa.Extract); ok && e.Tuple == ssa.Value(call) && e.Index == 1 {
+				return false, true
+			}
+			return false, false
+		}
+		r.neverReach("C17.R3:non-nil-result-is-appended", "when a getter did not report isNil its buffer is appended to the connection's writer before deal moves on: deal does not second-guess the buffer (a flushed buffer has Len()>0 and MallocLen()==0)", deal, ins, []Start{After(ins)},
+			func(x ssa.Instruction) bool {
+				_, isRet := x.(*ssa.Return)
+				return isRet || isGetter(x)
+			},
+			func(x ssa.Instruction) bool {
+				cc := callCommon(x)
+				return cc != nil && cc.IsInvoke() && cc.Method.Name() == "Append"
+			}, nil, notNil, "Append() before the next getter / return when isNil is false")
+	}
 	for _, site := range callSitesOf(w, deal) {
 		r.ob("C17.R3:who-deals:"+w.FnName(site.Parent()), "deal() is called only by the worker", site.Parent(), site, site.Parent() == worker, "caller", false)
 	}
@@ -498,6 +527,7 @@ func c17(r *Run) {
 		}
 		drained := cmpAtom(atomicValOn("Load", fTrigger), isConstEq(0), eqRel)
 		isClosed := cmpAtom(atomicValOn("Load", fState), isConstEq(stClosed), eqRel)
+		workerIdle := cmpAtom(atomicValOn("Load", fRun), isConstEq(0), eqRel)
 		n := 0
 		for _, ins := range allIns(closeFn) {
 			ret, ok := ins.(*ssa.Return)
@@ -507,6 +537,7 @@ func c17(r *Run) {
 			n++
 			if lastResultAll(ret, isNilConst) {
 				r.guarded(fmt.Sprintf("C17.R4:close-returns-when-drained#%d", n), "Close returns nil only after it saw no pending trigger (or the worker marked the queue closed)", closeFn, ret, anyAtom(drained, isClosed), nil, "guarded by Load(trigger)==0 | Load(state)==closed")
+				r.guarded(fmt.Sprintf("C17.R4:close-waits-for-the-flush#%d", n), "Close returns nil only after it saw the worker's run flag clear (or the worker marked the queue closed): the worker brings the trigger counter to 0 after the last deal but flushes afterwards, and gives the run flag back only after the flush - 'no pending trigger' alone lets Close return with the data appended but not flushed", closeFn, ret, anyAtom(workerIdle, isClosed), nil, "guarded by Load(runNum)==0 | Load(state)==closed")
 			}
 		}
 		casClosing := func(v ssa.Value) bool {
@@ -543,6 +574,66 @@ func c17(r *Run) {
 		wit := ss.Find(starts, isIns(ins), false)
 		r.Visited += ss.Visited
 		r.obW("C17.R3:ring-write-under-listLock", "the ring's write index is advanced only under listLock (concurrent Adds)", triggering, ins, wit, "between listLock.Lock and Unlock")
+	}
+	// ... and the counter is bumped in the same critical section: the worker takes "trigger" entries off the ring in ring order,
+	// so an entry that is in the ring but not yet counted lets a later Add's count pay for it - the later Add's own shard stays
+	// pending with the counter at 0, and Close (which waits for 0) returns before that getter ran
+	for _, ins := range findIns(triggering, func(i ssa.Instruction) bool {
+		a := asAtomic(i)
+		return a != nil && a.Op == "Add" && structFieldOfAddr(a.Addr) == fTrigger
+	}) {
+		isLock := func(i ssa.Instruction) bool {
+			f := calleeOf(i)
+			return f != nil && f.Name() == "Lock" && strings.HasSuffix(pathOf(callCommon(i).Args[0]), ".listLock")
+		}
+		isUnlock := func(i ssa.Instruction) bool {
+			f := calleeOf(i)
+			return f != nil && f.Name() == "Unlock" && strings.HasSuffix(pathOf(callCommon(i).Args[0]), ".listLock")
+		}
+		starts := append([]Start{Entry(triggering)}, startsAfter(findIns(triggering, isUnlock))...)
+		ss := &Search{Fn: triggering, Stop: isLock}
+		wit := ss.Find(starts, isIns(ins), false)
+		r.Visited += ss.Visited
+		r.obW("C17.R1:counter-bumped-with-the-ring-write", "the trigger counter is incremented inside the listLock section that wrote the ring slot: ring content and count are published together, so the worker never pays one Add's ring entry with another Add's count", triggering, ins, wit, "between listLock.Lock and Unlock")
+	}
+	// the ring of pending shards has q.size slots for any size (the shard count is the caller's, GOMAXPROCS by default - not a
+	// power of two in general): both cursors wrap at q.size - by remainder, or by a comparison with q.size
+	{
+		isSize := func(v ssa.Value) bool {
+			_, ok := loadOfField(stripConv(v), "ShardQueue", "size")
+			return ok
+		}
+		n := 0
+		for _, f := range w.Funcs {
+			for _, field := range []string{"w", "r"} {
+				for _, ins := range findIns(f, func(i ssa.Instruction) bool { return isStoreToField(i, "queueTrigger", field) }) {
+					v := stripConv(ins.(*ssa.Store).Val)
+					if c, isC := v.(*ssa.Const); isC && f.Name() != "foreach" && !strings.Contains(w.FnName(f), "$") {
+						_ = c
+						continue // initialisation
+					}
+					n++
+					ok := false
+					if b, isB := v.(*ssa.BinOp); isB && b.Op == token.REM && isSize(b.Y) {
+						ok = true
+					}
+					if !ok {
+						// wrap by comparison: some branch of this function compares with q.size
+						forEachIns(f, func(i ssa.Instruction) {
+							if ifi, isIf := i.(*ssa.If); isIf {
+								if b, isB := ifi.Cond.(*ssa.BinOp); isB && (isSize(b.X) || isSize(b.Y)) {
+									ok = true
+								}
+							}
+						})
+					}
+					r.ob("C17.R3:ring-cursor-wraps-at-size:"+field+":"+w.FnName(f), "the ring cursors advance modulo q.size (remainder, or an explicit comparison with q.size): a mask or another modulus is right only for particular shard counts and makes a burst overwrite pending entries - the overwritten shard is never drained", f, ins, ok, "wraps at q.size", true)
+				}
+			}
+		}
+		if n < 2 {
+			r.absentf(" C17: %d ring cursor advances found", n)
+		}
 	}
 }
 
